@@ -26,3 +26,17 @@ CHECKS["C08"] = dict(
     thorough=dict(shards=16, checks=500, timeout=3000),
     assumptions=["goroutine-profile text format of the Go runtime (state names, frame names)", "one node per case; inter-node wedges are out of scope"],
 )
+
+_LEDGER_ASSUME = [
+    "reference ledger = math/big sums over declared parent hashes in the harness archive; digests/signatures recomputed by harness/ref",
+    "goroutine interleavings inside concurrent batches are sampled, not enumerated",
+    "transactions carry fixed-epoch timestamps; vertex timestamps of node-created vertices come from time.Now()",
+]
+for _p, _q, _t in [("C01", 45, 140), ("C02", 40, 120), ("C03", 45, 140), ("C06", 45, 140), ("C09", 45, 140), ("C10", 45, 140)]:
+    CHECKS[_p] = dict(
+        test="Test" + _p, level="exploration",
+        common=dict(shrinktime="5s", env={"GOMEMLIMIT": "3GiB"}),
+        quick=dict(shards=12, checks=_q, timeout=900, env={"VERIF_TRUNC_EVERY": 15, "GOMEMLIMIT": "3GiB"}),
+        thorough=dict(shards=16, checks=_t, timeout=3000, env={"VERIF_TRUNC_EVERY": 6, "GOMEMLIMIT": "3GiB"}),
+        assumptions=_LEDGER_ASSUME,
+    )
